@@ -410,7 +410,15 @@ def _k_modelfunc(self, name, params, ret="float", n_labels=None):
     from .absfunc import AbsFunc, native_model_function
 
     if self.mode == "native":
-        return native_model_function(name, params, ret, n_labels)
+        # the numeric stand-ins vary between trials (a fixed family would leave some skeletons without any
+        # usable sample, e.g. a constraint that excludes every choice in some state); the salt is an input
+        key = "model-functions.salt"
+        if key not in self.inputs:
+            if self.model is not None:
+                self.inputs[key] = int(self.model.get(key, 0))
+            else:
+                self.inputs[key] = self.rng.randrange(0, 1 << 16)
+        return native_model_function(name, params, ret, n_labels, salt=self.inputs[key])
     f = AbsFunc(name, [(p, "pk") for p in params], ret=ret)
     from . import vc as _vc
 
